@@ -14,6 +14,7 @@
 -/
 import TT.Model.Wire
 import TT.Lemmas.Values
+import TT.Lemmas.Wire
 
 namespace TT
 
@@ -48,19 +49,156 @@ def metaWF (m : PersistedMeta) : Prop :=
 /-- Decoding fuel sufficient for every error chain in the collection. -/
 def spansFuel (m : PersistedSpans) : Nat := m.foldl (fun acc kv => max acc (valsFuel kv.2.values)) 2
 
+/-! ### Helper lemmas (proof-only; statements of the C11 theorems follow) -/
+
+theorem optU64_elim {p : Option Nat} (h : optU64 p) : ∀ n, p = some n → n < 2^64 := by
+  intro n hn; subst hn; exact h
+
+theorem spansFuel_foldl_ge (m : PersistedSpans) (a : Nat) :
+    a ≤ m.foldl (fun acc kv => max acc (valsFuel kv.2.values)) a := by
+  induction m generalizing a with
+  | nil => exact Nat.le_refl _
+  | cons kv m ih => exact Nat.le_trans (Nat.le_max_left _ _) (ih _)
+
+theorem spansFuel_foldl_mem (m : PersistedSpans) (a : Nat) (kv : Nat × SpanData) (h : kv ∈ m) :
+    valsFuel kv.2.values ≤ m.foldl (fun acc kv => max acc (valsFuel kv.2.values)) a := by
+  induction m generalizing a with
+  | nil => cases h
+  | cons e m ih =>
+    rw [List.foldl_cons]
+    rcases List.mem_cons.mp h with h | h
+    · subst h
+      exact Nat.le_trans (Nat.le_max_right _ _) (spansFuel_foldl_ge m _)
+    · exact ih _ h
+
+theorem valsFuel_single (v : TVal) (fuel : Nat) (hf : valsFuel [([], v)] ≤ fuel) : FuelOk fuel v :=
+  fuelOk_of_valsFuel [([], v)] fuel hf ([], v) (by simp)
+
+theorem roundtrip_newCallSite (id : Nat) (d : CallSite) (h : (Event.newCallSite id d).WF) (fuel : Nat) :
+    decodeEvent fuel (encodeEvent (.newCallSite id d)) = some (.newCallSite id d) := by
+  obtain ⟨hid, hd⟩ := h
+  simp [encodeEvent, decodeEvent, keysNodup_callSite, decodeCallSiteFields_encode_id _ d hd,
+    Json.lookup, asU64_num id hid]
+
+theorem roundtrip_newSpan (id : Nat) (p : Option Nat) (mt : Nat) (vs : TVals)
+    (h : (Event.newSpan id p mt vs).WF) (fuel : Nat) (hf : valsFuel vs ≤ fuel) :
+    decodeEvent fuel (encodeEvent (.newSpan id p mt vs)) = some (.newSpan id p mt vs) := by
+  obtain ⟨hid, hp, hm, hn, hv⟩ := h
+  have hvs := decodeVals_encodeVals vs hn hv fuel hf
+  have hp' := optU64_elim hp
+  cases p <;>
+    simp [encodeEvent, decodeEvent, optField, Json.keysNodup, Json.lookup, decodeOpt,
+      asU64_num, hid, hm, hp', hvs, K.id, K.metadataId, K.parentId, K.values,
+      K.newSpan, K.newCallSite]
+
+theorem roundtrip_valuesRecorded (id : Nat) (vs : TVals)
+    (h : (Event.valuesRecorded id vs).WF) (fuel : Nat) (hf : valsFuel vs ≤ fuel) :
+    decodeEvent fuel (encodeEvent (.valuesRecorded id vs)) = some (.valuesRecorded id vs) := by
+  obtain ⟨hid, hn, hv⟩ := h
+  have hvs := decodeVals_encodeVals vs hn hv fuel hf
+  simp [encodeEvent, decodeEvent, Json.keysNodup, Json.lookup,
+    asU64_num, hid, hvs, K.id, K.values,
+    K.newSpan, K.newCallSite, K.followsFrom, K.spanEntered, K.spanExited, K.spanCloned,
+    K.spanDropped, K.valuesRecorded]
+
+theorem roundtrip_newEvent (mt : Nat) (p : Option Nat) (vs : TVals)
+    (h : (Event.newEvent mt p vs).WF) (fuel : Nat) (hf : valsFuel vs ≤ fuel) :
+    decodeEvent fuel (encodeEvent (.newEvent mt p vs)) = some (.newEvent mt p vs) := by
+  obtain ⟨hm, hp, hn, hv⟩ := h
+  have hvs := decodeVals_encodeVals vs hn hv fuel hf
+  have hp' := optU64_elim hp
+  cases p <;>
+    simp [encodeEvent, decodeEvent, optField, Json.keysNodup, Json.lookup, decodeOpt,
+      asU64_num, hm, hp', hvs, K.metadataId, K.parent, K.values,
+      K.newSpan, K.newCallSite, K.followsFrom, K.spanEntered, K.spanExited, K.spanCloned,
+      K.spanDropped, K.valuesRecorded, K.newEvent]
+
+theorem roundtrip_simple (e : Event) (h : e.WF) (fuel : Nat)
+    (he : (∃ a b, e = .followsFrom a b) ∨ (∃ a, e = .entered a) ∨ (∃ a, e = .exited a)
+      ∨ (∃ a, e = .cloned a) ∨ (∃ a, e = .dropped a)) :
+    decodeEvent fuel (encodeEvent e) = some e := by
+  rcases he with ⟨a, b, rfl⟩ | ⟨a, rfl⟩ | ⟨a, rfl⟩ | ⟨a, rfl⟩ | ⟨a, rfl⟩
+  · obtain ⟨ha, hb⟩ := h
+    simp [encodeEvent, decodeEvent, Json.keysNodup, Json.lookup, asU64_num, ha, hb, K.id,
+      K.newSpan, K.newCallSite, K.followsFrom]
+  all_goals
+    have ha : a < 2^64 := h
+    simp [encodeEvent, decodeEvent, decodeIdOnly, Json.keysNodup, Json.lookup, asU64_num, ha, K.id,
+      K.newSpan, K.newCallSite, K.followsFrom, K.spanEntered, K.spanExited, K.spanCloned,
+      K.spanDropped]
+
+theorem conforms_simple (e : Event) (h : e.WF) (fuel : Nat)
+    (he : (∃ a b, e = .followsFrom a b) ∨ (∃ a, e = .entered a) ∨ (∃ a, e = .exited a)
+      ∨ (∃ a, e = .cloned a) ∨ (∃ a, e = .dropped a)) :
+    conformsEvent fuel (encodeEvent e) = true := by
+  rcases he with ⟨a, b, rfl⟩ | ⟨a, rfl⟩ | ⟨a, rfl⟩ | ⟨a, rfl⟩ | ⟨a, rfl⟩
+  · obtain ⟨ha, hb⟩ := h
+    simp [encodeEvent, conformsEvent, conformsFields, isU64_num, ha, hb,
+      K.newSpan, K.newCallSite, K.followsFrom]
+  all_goals
+    have ha : a < 2^64 := h
+    simp [encodeEvent, conformsEvent, conformsFields, isU64_num, ha,
+      K.newSpan, K.newCallSite, K.followsFrom, K.spanEntered, K.spanExited, K.spanCloned,
+      K.spanDropped]
+
+theorem conforms_newCallSite (id : Nat) (d : CallSite) (h : (Event.newCallSite id d).WF) (fuel : Nat) :
+    conformsEvent fuel (encodeEvent (.newCallSite id d)) = true := by
+  obtain ⟨hid, hd⟩ := h
+  simp [encodeEvent, conformsEvent, conformsFields_callSite_id id hid d hd]
+
+theorem conforms_newSpan (id : Nat) (p : Option Nat) (mt : Nat) (vs : TVals)
+    (h : (Event.newSpan id p mt vs).WF) (fuel : Nat) (hf : valsFuel vs ≤ fuel) :
+    conformsEvent fuel (encodeEvent (.newSpan id p mt vs)) = true := by
+  obtain ⟨hid, hp, hm, hn, hv⟩ := h
+  have hvs := conformsVals_encodeVals vs hv fuel hf
+  have hp' := optU64_elim hp
+  cases p <;>
+    simp [encodeEvent, conformsEvent, conformsFields, optField, isU64_num, hid, hm, hp', hvs,
+      K.id, K.metadataId, K.parentId, K.values, K.newSpan, K.newCallSite]
+
+theorem conforms_valuesRecorded (id : Nat) (vs : TVals)
+    (h : (Event.valuesRecorded id vs).WF) (fuel : Nat) (hf : valsFuel vs ≤ fuel) :
+    conformsEvent fuel (encodeEvent (.valuesRecorded id vs)) = true := by
+  obtain ⟨hid, hn, hv⟩ := h
+  have hvs := conformsVals_encodeVals vs hv fuel hf
+  simp [encodeEvent, conformsEvent, conformsFields, isU64_num, hid, hvs,
+    K.newSpan, K.newCallSite, K.followsFrom, K.spanEntered, K.spanExited, K.spanCloned,
+    K.spanDropped, K.valuesRecorded]
+
+theorem conforms_newEvent (mt : Nat) (p : Option Nat) (vs : TVals)
+    (h : (Event.newEvent mt p vs).WF) (fuel : Nat) (hf : valsFuel vs ≤ fuel) :
+    conformsEvent fuel (encodeEvent (.newEvent mt p vs)) = true := by
+  obtain ⟨hm, hp, hn, hv⟩ := h
+  have hvs := conformsVals_encodeVals vs hv fuel hf
+  have hp' := optU64_elim hp
+  cases p <;>
+    simp [encodeEvent, conformsEvent, conformsFields, optField, isU64_num, hm, hp', hvs,
+      K.metadataId, K.parent, K.values,
+      K.newSpan, K.newCallSite, K.followsFrom, K.spanEntered, K.spanExited, K.spanCloned,
+      K.spanDropped, K.valuesRecorded, K.newEvent]
+
 theorem C11_roundtrip_value (v : TVal) (h : v.WF = true) (fuel : Nat) (hf : valsFuel [([], v)] ≤ fuel) :
     decodeVal fuel (encodeVal v) = some v := by
-  sorry
+  exact decodeVal_encodeVal v h fuel (valsFuel_single v fuel hf)
 
 /-- Value collections decode to themselves, entry order preserved. -/
 theorem C11_roundtrip_values (vs : TVals) (h : vs.WF) (fuel : Nat) (hf : valsFuel vs ≤ fuel) :
     decodeVals fuel (encodeVals vs) = some vs := by
-  sorry
+  exact decodeVals_encodeVals vs h.1 h.2 fuel hf
 
 /-- Every well-formed event decodes from its encoding to itself (hence re-encodes identically). -/
 theorem C11_roundtrip_event (e : Event) (h : e.WF) (fuel : Nat) (hf : valsFuel e.values ≤ fuel) :
     decodeEvent fuel (encodeEvent e) = some e := by
-  sorry
+  cases e with
+  | newCallSite id d => exact roundtrip_newCallSite id d h fuel
+  | newSpan id p mt vs => exact roundtrip_newSpan id p mt vs h fuel hf
+  | followsFrom a b => exact roundtrip_simple _ h fuel (Or.inl ⟨a, b, rfl⟩)
+  | entered a => exact roundtrip_simple _ h fuel (Or.inr (Or.inl ⟨a, rfl⟩))
+  | exited a => exact roundtrip_simple _ h fuel (Or.inr (Or.inr (Or.inl ⟨a, rfl⟩)))
+  | cloned a => exact roundtrip_simple _ h fuel (Or.inr (Or.inr (Or.inr (Or.inl ⟨a, rfl⟩))))
+  | dropped a => exact roundtrip_simple _ h fuel (Or.inr (Or.inr (Or.inr (Or.inr ⟨a, rfl⟩))))
+  | valuesRecorded id vs => exact roundtrip_valuesRecorded id vs h fuel hf
+  | newEvent mt p vs => exact roundtrip_newEvent mt p vs h fuel hf
 
 theorem C11_reencode_identical (e : Event) (h : e.WF) (fuel : Nat) (hf : valsFuel e.values ≤ fuel) :
     ∃ e', decodeEvent fuel (encodeEvent e) = some e' ∧ encodeEvent e' = encodeEvent e :=
@@ -68,30 +206,68 @@ theorem C11_reencode_identical (e : Event) (h : e.WF) (fuel : Nat) (hf : valsFue
 
 theorem C11_roundtrip_spans (m : PersistedSpans) (h : spansWF m) (fuel : Nat) (hf : spansFuel m ≤ fuel) :
     decodeSpans fuel (encodeSpans m) = some m := by
-  sorry
+  obtain ⟨hn, hall⟩ := h
+  have hdec : decodeMapN (decodeSpanData fuel) (m.map fun kv => (kv.1, encodeSpanData kv.2)) = some m := by
+    apply decodeMapN_encode
+    intro kv hkv
+    obtain ⟨hk, hm, hp, hrc, hvn, hvv⟩ := hall kv hkv
+    refine ⟨hk, ?_⟩
+    have hfuel : valsFuel kv.2.values ≤ fuel :=
+      Nat.le_trans (spansFuel_foldl_mem m 2 kv hkv) hf
+    exact decodeSpanData_encode kv.2.mt kv.2.parent kv.2.refCount kv.2.values hm (optU64_elim hp) hrc
+      hvn hvv fuel hfuel
+  simp only [encodeSpans, decodeSpans, hdec, Option.map_some, AMap.foldl_insert_nodup m hn]
 
 theorem C11_roundtrip_meta (m : PersistedMeta) (h : metaWF m) :
     decodeMeta (encodeMeta m) = some m := by
-  sorry
+  obtain ⟨hn, hall⟩ := h
+  have hdec : decodeMapN decodeCallSite (m.map fun kv => (kv.1, encodeCallSite kv.2)) = some m := by
+    apply decodeMapN_encode
+    intro kv hkv
+    obtain ⟨hk, hc⟩ := hall kv hkv
+    exact ⟨hk, decodeCallSite_encode kv.2 hc⟩
+  simp only [encodeMeta, decodeMeta, hdec, Option.map_some, AMap.foldl_insert_nodup m hn]
 
 /-- The encodings have the frozen 0.2 shape. -/
 theorem C11_conforms_event (e : Event) (h : e.WF) (fuel : Nat) (hf : valsFuel e.values ≤ fuel) :
     conformsEvent fuel (encodeEvent e) = true := by
-  sorry
+  cases e with
+  | newCallSite id d => exact conforms_newCallSite id d h fuel
+  | newSpan id p mt vs => exact conforms_newSpan id p mt vs h fuel hf
+  | followsFrom a b => exact conforms_simple _ h fuel (Or.inl ⟨a, b, rfl⟩)
+  | entered a => exact conforms_simple _ h fuel (Or.inr (Or.inl ⟨a, rfl⟩))
+  | exited a => exact conforms_simple _ h fuel (Or.inr (Or.inr (Or.inl ⟨a, rfl⟩)))
+  | cloned a => exact conforms_simple _ h fuel (Or.inr (Or.inr (Or.inr (Or.inl ⟨a, rfl⟩))))
+  | dropped a => exact conforms_simple _ h fuel (Or.inr (Or.inr (Or.inr (Or.inr ⟨a, rfl⟩))))
+  | valuesRecorded id vs => exact conforms_valuesRecorded id vs h fuel hf
+  | newEvent mt p vs => exact conforms_newEvent mt p vs h fuel hf
 
 theorem C11_conforms_spans (m : PersistedSpans) (h : spansWF m) (fuel : Nat) (hf : spansFuel m ≤ fuel) :
     conformsSpans fuel (encodeSpans m) = true := by
-  sorry
+  obtain ⟨hn, hall⟩ := h
+  simp only [encodeSpans, conformsSpans, List.all_map, List.all_eq_true]
+  intro kv hkv
+  obtain ⟨hk, hm, hp, hrc, hvn, hvv⟩ := hall kv hkv
+  have hfuel : valsFuel kv.2.values ≤ fuel :=
+    Nat.le_trans (spansFuel_foldl_mem m 2 kv hkv) hf
+  have := conformsSpanData_encode kv.2.mt kv.2.parent kv.2.refCount kv.2.values hm (optU64_elim hp) hrc
+    hvv fuel hfuel
+  simp only [Function.comp, hk, decide_true, Bool.true_and]
+  exact this
 
 theorem C11_conforms_meta (m : PersistedMeta) (h : metaWF m) :
     conformsMeta (encodeMeta m) = true := by
-  sorry
+  obtain ⟨hn, hall⟩ := h
+  simp only [encodeMeta, conformsMeta, List.all_map, List.all_eq_true]
+  intro kv hkv
+  obtain ⟨hk, hc⟩ := hall kv hkv
+  simp [encodeCallSite, hk, conformsFields_callSite kv.2 hc]
 
 /-- Duplicate keys inside `values` are legal on the wire and decode by insertion (C15). -/
 theorem C11_decode_values_duplicates (es : List (Str × TVal)) (h : ∀ kv ∈ es, kv.2.WF = true)
     (fuel : Nat) (hf : valsFuel es ≤ fuel) :
     decodeVals fuel (.obj (es.map fun kv => (kv.1, encodeVal kv.2))) = some (TVals.ofList es) := by
-  sorry
+  exact decodeVals_encode_ofList es h fuel hf
 
 /-! Non-vacuity: a well-formed event with a 128-bit extreme, an error chain and an optional parent. -/
 example : (Event.newSpan 3 (some 1) 7 [([97], .int (-(2^127))), ([98], .err [109] [[115], [116]])]).WF := by
